@@ -80,6 +80,8 @@ def expected_list(t0, t1, b):
     if b is None:
         b = {'int': 1 if t0 < t1 else -1}
     f = step_fn(b)
+    if 'str' in b and all(n == 0 for n, _ in tokens(b['str'])):
+        return ('skip',)      # '0b' from a weekend start rolls to Monday without counting a day: still a zero bump, no claim (see below)
     try:
         nxt = f(t0)
     except OverflowError:
